@@ -55,3 +55,43 @@ def history(h):
         cnt = h.method(LB, "connection_count", lb)
         h.check(cnt == len(members), "c13.connection-count")
         h.check(h.method(LB, "has_connections", lb) == bool(members), "c13.has-connections")
+
+
+def replay_history(model, params, role):
+    ch = model.get("_choices", [])
+    d = dict(map(tuple, ch))
+    k = params.get("ops", 3)
+    n0, j0 = d.get("initial_peers", 0), d.get("initial_nexts", 0)
+    script = [(0, u) for u in URIS[:n0]] + [(2, None)] * j0
+    lines, members, expected, want = ["lb_new"], [], None, []
+    for i in range(len(script) + k):
+        if i < len(script):
+            op, u = script[i]
+        else:
+            if f"op{i}" not in d:
+                break
+            op, u = d[f"op{i}"], None
+        if op == 0:
+            u = u or URIS[d.get(f"uri{i}", 0)]
+            lines.append(f"lb_add {u}")
+            if u not in members:
+                members.append(u)
+                expected = expected or u
+        elif op == 1:
+            u = URIS[d.get(f"uri{i}", 0)]
+            lines.append(f"lb_remove {u}")
+            if u in members:
+                j = members.index(u)
+                if expected == u:
+                    expected = members[(j + 1) % len(members)] if len(members) > 1 else None
+                members.remove(u)
+        else:
+            lines.append("lb_next")
+            want.append(expected if members else "none")
+            if members:
+                j = members.index(expected)
+                expected = members[(j + 1) % len(members)]
+    def pred(out):
+        got = [l.split()[1] for l in out.splitlines() if l.startswith("next ")]
+        return got != want
+    return "\n".join(lines) + "\n", pred, f"history replayed natively; round-robin reference expects {want}"
